@@ -286,7 +286,7 @@ def grid_unit(unit):
                 part['transitions'] += 1
                 part['executions'] += 1
                 try:
-                    got = {k: getattr(h, k) for k in want}
+                    got = {k: getattr(h, k, 'ATTRIBUTE-MISSING') for k in want}
                     if got != want:
                         diff = {k: (got[k], want[k]) for k in want
                                 if got[k] != want[k]}
